@@ -276,3 +276,36 @@ def faults_family():
         assumptions=["single faults only; positions are enumerated from the real run, the spec's operation sequences are compared as drift",
                      "the bystander record of another node and the token record are read from the inner storage, bypassing injection"],
     )
+
+
+# ------------------------------------------------------------------ C04
+def enrol_extra(prop, tier, seed):
+    out = []
+    n = 0
+    flows = ["operator", "token", "wrapped", "rewrapped"]
+    for flow in flows:
+        for be in ("inmem", "file", "storeonce"):
+            ops = []
+            for sw in (False, True):
+                for state in ("none", "s1"):
+                    for params in ((False, True) if flow in ("wrapped", "rewrapped") else (False,)):
+                        ops.append(dict(op="Enrol", flow=flow, backend=be, sw=sw, state=state, params=params, subst="none"))
+            # node-side substitutions (one storage configuration per flow x back end in quick, all in thorough)
+            for sw in ((False,) if tier == "quick" else (False, True)):
+                for subst in ("wrongKey", "tamper", "wrongServerPub", "nonce32", "nonceToken", "swapBundles"):
+                    ops.append(dict(op="Enrol", flow=flow, backend=be, sw=sw, state="none", params=False, subst=subst))
+            n += 1
+            out.append(dict(id="enr_%s_%s" % (flow, be), ops=ops))
+    return out
+
+
+def enrol_family():
+    return dict(
+        driver="enrol", trace_module="EnrollTrace.tla", trace_consts={}, trace_spec="TSpec", level="model_checking", fixed=None,
+        nontrivial=lambda p, l: l["res"] in ("issued", "subst"),
+        mc=dict(quick=[("Enroll.tla", "MC_Enroll.cfg")], thorough=[("Enroll.tla", "MC_Enroll.cfg")]),
+        gen=[], extra=enrol_extra,
+        rule={"*": "the full product flow (operator / token / wrapped / re-wrapped) x back end (in-memory, file, store-once) x storage wrapper x application state (x application params for the wrapper flows) of honest enrolments, each followed by ClientConfigs and a real protocol.Dial, plus six node-side substitutions of key or response fields per flow x back end; every observation judged by TLC against HonestViolations"},
+        assumptions=["the enrolment itself is run through the public functions (not over the network); the dial afterwards goes through a real InterceptingListener over the same server storage",
+                     "TLC checks completion (liveness under weak fairness) and the refuse-unless-bound rule of the node on the Enroll.tla model for every configuration"],
+    )
